@@ -60,10 +60,19 @@ SPECIAL_M1 = {
 }
 
 
-def program_m1(variant, cfg, erased=False):
-    """opaque Tee whose first method is `variant`; disabled under cfg (method place), or not written at all (erased)"""
+def program_m1(variant, cfg, erased=False, after=False):
+    """opaque Tee whose first method is `variant`; disabled under cfg (method place), or not written at all (erased).
+    after: the conditional attribute is written AFTER the method's own `auto`-gated marker instead of before it -- attributes of one
+    item are independent of each other (Attrs.tla evaluates each formula on its own), so the order cannot matter"""
     attr = ("        #[diplomat::attr(%s, disable)]\n" % cfg) if cfg is not None else ""
-    m1 = "" if erased else attr + SPECIAL_M1[variant]
+    body = SPECIAL_M1[variant]
+    if after and body.lstrip().startswith("#[diplomat::attr(auto"):
+        first, rest = body.split("\n", 1)
+        m1 = first + "\n" + attr + rest
+    else:
+        m1 = attr + body
+    if erased:
+        m1 = ""
     return ("#[diplomat::bridge]\nmod ffi {\n    use diplomat_runtime::DiplomatWrite;\n" + TDECL["opaque"] +
             "    impl Tee {\n" + m1 + "        pub fn m_two(&self) -> u8 { 2 }\n    }\n"
             "    impl Tee {\n        pub fn m_three(&self) -> u8 { 3 }\n    }\n"
@@ -87,8 +96,9 @@ def no_trace(rep, tier, cases):
         plain = gen_all(wd, "plain", program_m1(variant, None))
         forms = [{"txt": "*", "sat": {b: True for b in lib.BACKENDS}}] + \
                 [{"txt": ftext(c["form"]), "sat": c["sat"]} for c in (rng.choice(by_sig[sg]) for sg in sigs[:(2 if tier == "quick" else 10)])]
-        for f in forms:
-            got = gen_all(wd, "dis", program_m1(variant, f["txt"]))
+        orders = [False, True] if SPECIAL_M1[variant].lstrip().startswith("#[diplomat::attr(auto") else [False]
+        for f, after in [(f, o) for f in forms for o in orders]:
+            got = gen_all(wd, "dis", program_m1(variant, f["txt"], after=after))
             n += 1
             for b in lib.BACKENDS:
                 exp = erased[b] if f["sat"][b] else plain[b]
@@ -106,10 +116,10 @@ def no_trace(rep, tier, cases):
                     continue
                 if got[b]["rc"] != exp["rc"] or got[b]["tree"] != exp_tree:
                     diff = [k for k in set(got[b]["tree"] or {}) | set(exp_tree or {}) if (got[b]["tree"] or {}).get(k) != (exp_tree or {}).get(k)]
-                    rep.violation({"leg": "no-trace", "variant": variant, "backend": b, "holds": f["sat"][b],
+                    rep.violation({"leg": "no-trace", "variant": variant, "backend": b, "holds": f["sat"][b], "after_auto_marker": after,
                                    "what": "a disabled method leaves a trace" if f["sat"][b] else "output differs from the attribute-free program"},
                                   {"formula": f["txt"], "differing_files": sorted(diff)[:10], "stderr": got[b]["stderr"],
-                                   "program": program_m1(variant, f["txt"])})
+                                   "program": program_m1(variant, f["txt"], after=after)})
             rep.nontriv("no-trace:%s:%s" % (variant, f["txt"]))
     rep.evaluations += n * len(lib.BACKENDS)
     rep.traces += n
